@@ -18,6 +18,7 @@
   runCompactionLocked, including that `NewFileWriterWithName` appends to an existing temp).
 -/
 import Hv.Storage.Compact
+import Hv.Storage.Session
 import Hv.Basic.Verdict
 
 namespace Hv.C03
@@ -46,9 +47,26 @@ def Atomic (c : Cfg) : Prop :=
     lossyImageAt (cleanDisk nl blocks temp) (compactVia c mk (cleanDisk nl blocks temp) ep order bs) i j k
         = (cleanDisk nl blocks temp).applyAll (compactVia c mk (cleanDisk nl blocks temp) ep order bs)
 
+/-- main file as a crash can leave it: a clean file followed by nothing or the beginning of one more block -/
+def tornMain (nl : Nat) (blocks : List Block) (b : Block) (r : Nat) : List Cell :=
+  fileCells nl blocks ++ (blockCells b).take r
+
+/-- … and on a main file with a torn tail (the input of the Load self-heal after a crash, or of a
+    CLI run on a crash image): the compaction either does not start (the file does not load) or
+    leaves a file that loads to what the torn file loaded to. -/
+def PreservesTorn (c : Cfg) (ep : EP) : Prop :=
+  ∀ (mk : Mk), MkOk mk → ∀ (nl bs : Nat) (blocks : List Block), (∀ b ∈ blocks, b.WF) →
+  ∀ (b : Block), b.WF → ∀ r, r < 16 + b.plen →
+  ∀ (temp : Option (List Cell)) (order : List (Nat × Nat)),
+    let d := mainDisk (tornMain nl blocks b r) temp
+    (mainIndex c d = none ∧ compactVia c mk d ep order bs = []) ∨
+    ∃ idx, mainIndex c d = some idx ∧ (Covers order idx →
+      ∃ idx', mainIndex c (d.applyAll (compactVia c mk d ep order bs)) = some idx' ∧ idx'.Same idx)
+
 /-- The full-strength statement. -/
 structure Holds (c : Cfg) : Prop where
   preserves : ∀ ep, Preserves c ep
+  preservesTorn : ∀ ep, PreservesTorn c ep
   atomic : Atomic c
 
 /-! ### Theorems -/
@@ -70,6 +88,33 @@ theorem compact_preserves (c : Cfg) (ep : EP) (hrm : ep.rmFirst c = true) : Pres
     cases h : Index.get (Index.replay [] (entsOf blocks)) k <;> simp [Index.get_nil]
   · simp only [hk, if_false, Index.get_nil]
     exact (Index.get_eq_none_of_not_mem _ _ (fun hm => hk ((hcov k).mpr hm))).symm
+
+theorem mainNl_torn (nl : Nat) (blocks : List Block) (b : Block) (r : Nat) (t : Option (List Cell)) :
+    mainNl (mainDisk (tornMain nl blocks b r) t) = nl := by
+  simp [mainNl, mainDisk, tornMain, fileCells, List.append_assoc, headerOf_file]
+
+/-- The same on a main file with a torn tail. -/
+theorem compact_preserves_torn (c : Cfg) (ep : EP) (hrm : ep.rmFirst c = true) : PreservesTorn c ep := by
+  intro mk hmk nl bs blocks hwf b hb r hr temp order
+  simp only
+  cases hm : mainIndex c (mainDisk (tornMain nl blocks b r) temp) with
+  | none => left; exact ⟨rfl, by simp [compactVia, hm]⟩
+  | some idx =>
+    right
+    refine ⟨idx, rfl, ?_⟩
+    intro hcov
+    simp only [compactVia, hm, hrm]
+    obtain ⟨nbs, hnwf, hents, hfin⟩ := compactOps_rm_gen c mk hmk nl bs (tornMain nl blocks b r) temp
+      (fun t => mainNl_torn nl blocks b r t) (liveEntries idx order)
+    rw [hfin]
+    refine ⟨_, mainIndex_clean c nl nbs hnwf none, ?_⟩
+    intro k
+    rw [hents, liveEntries_fst, Index.get_replay_puts]
+    by_cases hk : k ∈ order.map (·.1)
+    · simp only [hk, if_true]
+      cases h : Index.get idx k <;> simp [Index.get_nil]
+    · simp only [hk, if_false, Index.get_nil]
+      exact (Index.get_eq_none_of_not_mem _ _ (fun hm' => hk ((hcov k).mpr hm'))).symm
 
 /-- the encoder used by the closed witnesses: one payload byte per block -/
 def mk0 : Mk := fun es => { hdr := [1, 0, 0, 0, 0, 0, 0, 0, 0, 0, 0, 0, 0, 0, 0, 0], plen := 1, ents := es }
@@ -196,13 +241,13 @@ example : MkOk mk0 ∧ (∀ b ∈ [mk0 [Op.put 1 1, Op.put 2 5], mk0 [Op.del 1]]
 /-- what is proved whatever the facts: entry points that remove the temp preserve the live
     set; with the fsync before the rename every crash image is old or new -/
 def Partial (c : Cfg) : Prop :=
-  (∀ ep, ep.rmFirst c = true → Preserves c ep) ∧ (c.closeFsyncs = true → Atomic c)
+  (∀ ep, ep.rmFirst c = true → Preserves c ep ∧ PreservesTorn c ep) ∧ (c.closeFsyncs = true → Atomic c)
 
 theorem C03_partial (c : Cfg) : Partial c :=
-  ⟨fun ep h => compact_preserves c ep h, fun h => compact_crash_atomic c h⟩
+  ⟨fun ep h => ⟨compact_preserves c ep h, compact_preserves_torn c ep h⟩, fun h => compact_crash_atomic c h⟩
 
 theorem holds_of_good (c : Cfg) (h1 : ∀ ep : EP, ep.rmFirst c = true) (h2 : c.closeFsyncs = true) : Holds c :=
-  ⟨fun ep => compact_preserves c ep (h1 ep), compact_crash_atomic c h2⟩
+  ⟨fun ep => compact_preserves c ep (h1 ep), fun ep => compact_preserves_torn c ep (h1 ep), compact_crash_atomic c h2⟩
 
 structure Facts where
   /-- `CleanupCompactionTemp` precedes `NewCompactor(...).Compact()` in runCompactionLocked -/
@@ -219,6 +264,8 @@ structure Facts where
   closeFsyncs : Tri
   /-- in both compaction bodies `os.Rename` comes after `writer.Close()` and is the last file operation -/
   renameAfterClose : Tri
+  /-- … and a failing `writer.Close()` (flush or fsync error) returns before the rename -/
+  closeErrorAborts : Tri
   /-- flushLocked writes block header, payload, file header, in this order -/
   flushOrderCanonical : Tri
   /-- the CLI's compactSwamp only calls NewCompactor(...).Compact() / ShouldCompact() -/
@@ -231,20 +278,21 @@ structure Facts where
       configuration); they steer the correspondence driver on images with a damaged temp -/
   shortHeaderIsEOF : Tri
   tornDataIsEOF : Tri
+  truncatesTornTail : Tri
   deriving Repr
 
 def cfgOf (f : Facts) : Cfg :=
   { r := ⟨f.shortHeaderIsEOF.isYes, f.tornDataIsEOF.isYes, false⟩, syncFsyncs := true, closeFsyncs := f.closeFsyncs.isYes,
-    truncatesTornTail := false, loadCleansTemp := f.loadCleansTemp.isYes,
+    truncatesTornTail := f.truncatesTornTail.isYes, loadCleansTemp := f.loadCleansTemp.isYes,
     rmTempLocked := f.rmTempLocked.isYes, rmTempFromIndex := f.rmTempFromIndex.isYes,
     rmTempCompactor := f.rmTempCompactor.isYes }
 
 def modelApplies (f : Facts) : Bool :=
-  f.opensExistingForAppend.isYes && f.renameAfterClose.isYes && f.flushOrderCanonical.isYes &&
+  f.opensExistingForAppend.isYes && f.renameAfterClose.isYes && f.closeErrorAborts.isYes && f.flushOrderCanonical.isYes &&
   f.cliUsesCompactorOnly.isYes && f.triggersUseLocked.isYes && f.loadUsesFromIndex.isYes &&
   f.rmTempLocked != .unknown && f.rmTempFromIndex != .unknown && f.rmTempCompactor != .unknown &&
   f.loadCleansTemp != .unknown && f.closeFsyncs != .unknown &&
-  f.shortHeaderIsEOF != .unknown && f.tornDataIsEOF != .unknown
+  f.shortHeaderIsEOF != .unknown && f.tornDataIsEOF != .unknown && f.truncatesTornTail != .unknown
 
 def findings (f : Facts) : List String :=
   (if EP.rmFirst (cfgOf f) .locked then [] else ["C03-locked-stale-temp"]) ++
@@ -255,6 +303,8 @@ def findings (f : Facts) : List String :=
 def classify (f : Facts) : Verdict :=
   if !modelApplies f then .undetermined "a compaction fact was not recognised (the model does not describe this code)"
   else if findings f = [] then .holds
+  else if f.truncatesTornTail.isYes then
+    .undetermined "an entry point does not remove the temp and the open truncates: no witness theorem for this combination"
   else .violated (findings f)
 
 theorem ite_nil_iff (b : Bool) (x : String) : (if b = true then ([] : List String) else [x]) = [] ↔ b = true := by
@@ -274,11 +324,13 @@ theorem classify_sound (f : Facts) : (classify f).Sound (Holds (cfgOf f)) (Parti
       · exact h1
       · exact h2
       · exact h3
-    · rename_i hfnd
+    · split
+      · trivial
+      rename_i hfnd htr
       refine ⟨?_, C03_partial _⟩
       intro hh
       apply hfnd
-      have hc : (cfgOf f).truncatesTornTail = false := rfl
+      have hc : (cfgOf f).truncatesTornTail = false := by simpa [cfgOf] using htr
       simp only [findings, List.append_eq_nil_iff, ite_nil_iff]
       refine ⟨⟨⟨?_, ?_⟩, ?_⟩, ?_⟩
       · cases h : EP.rmFirst (cfgOf f) .locked
@@ -293,5 +345,157 @@ theorem classify_sound (f : Facts) : (classify f).Sound (Holds (cfgOf f)) (Parti
       · cases h : (cfgOf f).closeFsyncs
         · exact absurd hh.atomic (compact_no_fsync_loses _ h)
         · rfl
+
+end Hv.C03
+
+namespace Hv.C03
+open Hv.BlockStore
+
+/-! ### Compaction anywhere in a history -/
+
+/-- a history at session granularity: a writing session (`Write(items)` … `Close`) or a compaction -/
+inductive SAct where
+  | session (items : List (Op × Nat))
+  | compact (ep : EP) (order : List (Nat × Nat))
+
+def sStep (c : Cfg) (mk : Mk) (nl bs : Nat) (d : Disk) : SAct → Disk
+  | .session items =>
+    let w1 := cWrite c mk d { w := none, nlName := nl, bs := bs } items
+    (d.applyAll w1.2).applyAll (cClose c mk w1.1).2
+  | .compact ep order => d.applyAll (compactVia c mk d ep order bs)
+
+def sWritten : List SAct → List Op
+  | [] => []
+  | .session items :: r => items.map (·.1) ++ sWritten r
+  | .compact _ _ :: r => sWritten r
+
+/-- every compaction goes through an entry point that removes the temp, and iterates over exactly the live keys -/
+def sValid (c : Cfg) (mk : Mk) (nl bs : Nat) : Disk → List SAct → Prop
+  | _, [] => True
+  | d, .session items :: r => sValid c mk nl bs (sStep c mk nl bs d (.session items)) r
+  | d, .compact ep order :: r =>
+    ep.rmFirst c = true ∧ (∀ idx, mainIndex c d = some idx → Covers order idx) ∧
+      sValid c mk nl bs (sStep c mk nl bs d (.compact ep order)) r
+
+theorem Same_replay {a b : Index} (h : a.Same b) (es : List Op) : (Index.replay a es).Same (Index.replay b es) := by
+  induction es generalizing a b with
+  | nil => exact h
+  | cons e r ih =>
+    apply ih
+    intro k
+    cases e with
+    | put k' v =>
+      simp only [Index.apply, Index.get_put]
+      split
+      · rfl
+      · exact h k
+    | del k' =>
+      simp only [Index.apply, Index.get_del]
+      split
+      · rfl
+      · exact h k
+
+/-- the disk between sessions: nothing, or a clean main file and no temp -/
+def Between (nl : Nat) (d : Disk) (idx : Index) : Prop :=
+  (d = {} ∧ idx = []) ∨ ∃ blocks, (∀ b ∈ blocks, b.WF) ∧ d = cleanDisk nl blocks none ∧ idx = Index.replay [] (entsOf blocks)
+
+theorem disk_ext (d : Disk) (m t : Option (List Cell)) (hm : d.get .main = m) (ht : d.get .temp = t) :
+    d = { main := m, temp := t } := by
+  cases d; simp_all [Disk.get]
+
+theorem session_step (c : Cfg) (mk : Mk) (hmk : MkOk mk) (nl bs : Nat) (d : Disk) (idx : Index) (h : Between nl d idx)
+    (items : List (Op × Nat)) :
+    Between nl (sStep c mk nl bs d (.session items)) (Index.replay idx (items.map (·.1))) := by
+  by_cases hemp : items = []
+  · subst hemp
+    simpa [sStep, cWrite, cClose, Disk.applyAll, Index.replay] using h
+  have hne : items.isEmpty = false := by cases items <;> simp_all
+  -- the writer after `ensureWriter`, on a clean (possibly brand-new) file
+  have key : ∀ (d1 : Disk) (w : WSt) (blocks : List Block), (∀ b ∈ blocks, b.WF) → WInv d1 w (fileCells nl blocks) →
+      w.path = .main → w.buf = [] → d1.get .temp = none →
+      Between nl ((d1.applyAll (addManyW mk w items).2).applyAll (closeW c mk (addManyW mk w items).1))
+        (Index.replay (Index.replay [] (entsOf blocks)) (items.map (·.1))) := by
+    intro d1 w blocks hwf hinv hp hbuf htemp
+    obtain ⟨a, ha, pa⟩ := addManyW_spec mk hmk items d1 w _ hinv
+    obtain ⟨b, hb, hbwf, hfile, hother⟩ := closeW_spec c mk hmk _ _ _ pa.inv
+    rw [pa.path, hp] at hfile
+    have ht : ((d1.applyAll (addManyW mk w items).2).applyAll (closeW c mk (addManyW mk w items).1)).get .temp = none := by
+      rw [hother .temp (by rw [pa.path, hp]; decide), pa.other .temp (by rw [hp]; decide)]; exact htemp
+    right
+    refine ⟨blocks ++ a ++ b, ?_, ?_, ?_⟩
+    · intro x hx
+      rcases List.mem_append.mp hx with hx | hx
+      · rcases List.mem_append.mp hx with hx | hx
+        · exact hwf x hx
+        · exact pa.wf x hx
+      · exact hbwf x hx
+    · rw [disk_ext _ _ _ hfile ht]
+      simp [cleanDisk, fileCells, render_append, List.append_assoc]
+    · rw [entsOf_append, entsOf_append, hb, List.append_assoc, ha, hbuf, List.nil_append, Index.replay_append]
+  rcases h with ⟨hd, hidx⟩ | ⟨blocks, hwf, hd, hidx⟩
+  · subst hd; subst hidx
+    have hopen : ensureW c {} { w := none, nlName := nl, bs := bs } =
+        some ({ path := .main, pos := 64 + nl, nl := nl, buf := [], bufSize := 0, bs := bs }, createOps .main nl) := by
+      simp [ensureW, openWriter, Disk.get]
+    simp only [sStep, cWrite, hne, Bool.false_eq_true, if_false, hopen, cClose, Disk.applyAll_append, createOps_apply_main]
+    have := key { main := some (fhCells nl ++ nmCells nl), temp := none }
+      { path := .main, pos := 64 + nl, nl := nl, buf := [], bufSize := 0, bs := bs } [] (by simp)
+      ⟨by simp [Disk.get, fileCells_nil], by simp [fileCells_nil], fileCells_hdr nl []⟩ rfl rfl rfl
+    simpa [entsOf, Index.replay] using this
+  · subst hd; subst hidx
+    have hopen : ensureW c (cleanDisk nl blocks none) { w := none, nlName := nl, bs := bs } =
+        some ({ path := .main, pos := (fileCells nl blocks).length, nl := nl, buf := [], bufSize := 0, bs := bs }, []) := by
+      simp only [ensureW, cleanDisk]; exact openWriter_clean c nl bs blocks hwf none nl
+    simp only [sStep, cWrite, hne, Bool.false_eq_true, if_false, hopen, cClose, List.nil_append]
+    exact key (cleanDisk nl blocks none) _ blocks hwf ⟨rfl, rfl, fileCells_hdr nl blocks⟩ rfl rfl rfl
+
+theorem compact_step (c : Cfg) (mk : Mk) (hmk : MkOk mk) (nl bs : Nat) (d : Disk) (idx : Index) (h : Between nl d idx)
+    (ep : EP) (hrm : ep.rmFirst c = true) (order : List (Nat × Nat))
+    (hcov : ∀ i, mainIndex c d = some i → Covers order i) :
+    ∃ idx', Between nl (sStep c mk nl bs d (.compact ep order)) idx' ∧ idx'.Same idx := by
+  rcases h with ⟨hd, hidx⟩ | ⟨blocks, hwf, hd, hidx⟩
+  · subst hd; subst hidx
+    exact ⟨[], Or.inl ⟨by simp [sStep, compactVia, mainIndex, Disk.applyAll], rfl⟩, Index.Same.refl _⟩
+  · subst hd; subst hidx
+    have hi := mainIndex_clean c nl blocks hwf none
+    have hc := hcov _ hi
+    simp only [sStep, compactVia, hi, hrm]
+    obtain ⟨nbs, hnwf, hents, hfin⟩ := compactOps_rm c mk hmk nl bs blocks none
+      (liveEntries (Index.replay [] (entsOf blocks)) order)
+    rw [hfin]
+    refine ⟨_, Or.inr ⟨nbs, hnwf, rfl, rfl⟩, ?_⟩
+    intro k
+    rw [hents, liveEntries_fst, Index.get_replay_puts]
+    by_cases hk : k ∈ order.map (·.1)
+    · simp only [hk, if_true]
+      cases h : Index.get (Index.replay [] (entsOf blocks)) k <;> simp [Index.get_nil]
+    · simp only [hk, if_false, Index.get_nil]
+      exact (Index.get_eq_none_of_not_mem _ _ (fun hm => hk ((hc k).mpr hm))).symm
+
+/-- **Compaction anywhere.**  Whatever compactions (through entry points that remove the temp,
+    iterating over the live keys in any order) are inserted between the writing sessions of a
+    history, the file loads, at the end, to the replay of everything that was written. -/
+theorem compaction_anywhere (c : Cfg) (mk : Mk) (hmk : MkOk mk) (nl bs : Nat) (acts : List SAct)
+    (hv : sValid c mk nl bs {} acts) :
+    ∃ idx, Between nl (acts.foldl (sStep c mk nl bs) {}) idx ∧ idx.Same (Index.replay [] (sWritten acts)) := by
+  have gen : ∀ (acts : List SAct) (d : Disk) (idx spec : Index), Between nl d idx → idx.Same spec → sValid c mk nl bs d acts →
+      ∃ idx', Between nl (acts.foldl (sStep c mk nl bs) d) idx' ∧ idx'.Same (Index.replay spec (sWritten acts)) := by
+    intro acts
+    induction acts with
+    | nil => intro d idx spec hb hs _; exact ⟨idx, hb, by simpa [sWritten, Index.replay] using hs⟩
+    | cons a rest ih =>
+      intro d idx spec hb hs hv
+      cases a with
+      | session items =>
+        have h1 := session_step c mk hmk nl bs d idx hb items
+        obtain ⟨idx', hb', hs'⟩ := ih _ _ (Index.replay spec (items.map (·.1))) h1 (Same_replay hs _) hv
+        refine ⟨idx', hb', ?_⟩
+        simpa [sWritten, Index.replay_append] using hs'
+      | compact ep order =>
+        obtain ⟨hrm, hcov, hv'⟩ := hv
+        obtain ⟨idx1, hb1, hs1⟩ := compact_step c mk hmk nl bs d idx hb ep hrm order hcov
+        obtain ⟨idx', hb', hs'⟩ := ih _ idx1 spec hb1 (hs1.trans hs) hv'
+        exact ⟨idx', hb', by simpa [sWritten] using hs'⟩
+  exact gen acts {} [] [] (Or.inl ⟨rfl, rfl⟩) (Index.Same.refl _) hv
 
 end Hv.C03
